@@ -154,6 +154,7 @@ class Real:
         self.pending = {}          # notify task -> (xs, flips)
         self.seen = {(0, header_of(0).hex())}
         self.failed = False
+        self.raced = False
         self.hdr_not_seen = None
         self._status_cache = {}
 
@@ -291,6 +292,8 @@ class Real:
                 r = done[e[1]]
                 self.db.hreads.remove(r)
                 if r['value'] == 'E':
+                    if r['h'] <= self.db.state.height:
+                        self.raced = True       # the DB is back at that height when the error arrives
                     r['fut'].set_exception(IndexError(f'height {r["h"]} out of range'))
                 else:
                     r['fut'].set_result(header_of(r['value']))
@@ -402,12 +405,18 @@ def run_seq(evs, nsessions=2):
             expect.append(real.show())
             if viol is None and real.hdr_not_seen:
                 viol = (i, real.hdr_not_seen, 'queryable')
+            if viol is None and real.failed:
+                viol = (i, '_notify_sessions raised out of _refresh_hsub_results: the notification (touched '
+                           f'{real.lost}) is lost and, in the server, the calling task (mempool refresh / block '
+                           'processor) dies', 'raised')
             if viol is None and real.quiet():
                 st = real.stale()
                 if st:
                     viol = (i, st[0][0], st[0][1])
         if real.failed:
             reached.add('refresh-raised')
+        if real.raced:
+            reached.add('refresh-race')
         for s in real.sessions:
             if s.mempool_statuses:
                 reached.add('mempool_statuses')
@@ -430,17 +439,36 @@ CORPUS_ABA = [('MP', 1, 2), ('MP', 0, 1), ('NT', 0, [0, 1]),
               ('FL', 0, 2), ('SUB', 0, 0), ('FL', 0, 1), ('RD', 0), ('RF', 0),
               ('RS',), ('NT', 1, []), ('HD', 0), ('HF', 0)]
 
-_fix_probe = [None]
+# The raising refresh: the DB is lowered while the header is read and is back at that height when the
+# IndexError arrives.  The pinned code raised out of _notify_sessions; the current code reads again.
+CORPUS_RACE = [('SUB', 0, 0), ('RD', 0), ('RF', 0), ('ADV', 1), ('CH', 0), ('NT', 1, [0]), ('BK',), ('HD', 0), ('ADV', 2),
+               ('HF', 0), ('HD', 0), ('HF', 0), ('RD', 0), ('RF', 0)]
+
+_probe = {}
 
 
 def code_has_cmp_fix():
     """Does the second loop of `_notify_inner` compare the new status with the value that is in
-    `mempool_statuses` when it is replaced (the proposed fix) or with the copy taken before the loop
-    (the pinned code)?  Probed by behaviour: the stale-copy schedule on the real classes."""
-    if _fix_probe[0] is None:
+    `mempool_statuses` when it is replaced (ee7f7d3) or with the copy taken before the loop (pinned)?
+    Probed by behaviour: the stale-copy schedule on the real classes."""
+    if 'cmp' not in _probe:
         _l, _e, viol, _r = run_seq(CORPUS_ABA)
-        _fix_probe[0] = not (viol is not None and viol[2] == 'suppressed')
-    return _fix_probe[0]
+        _probe['cmp'] = not (viol is not None and viol[2] == 'suppressed')
+    return _probe['cmp']
+
+
+def code_raises_on_race():
+    """Does `_refresh_hsub_results` raise when the header read failed and the DB is back at that height
+    (pinned), or read again?  Probed by behaviour: the race schedule on the real classes."""
+    if 'raise' not in _probe:
+        _l, _e, _viol, reached = run_seq(CORPUS_RACE)
+        _probe['raise'] = 'refresh-raised' in reached
+    return _probe['raise']
+
+
+def model_options():
+    """tokens of the driver's NEW line selecting the pinned variants the code under test still has"""
+    return ('' if code_has_cmp_fix() else ' copy') + (' raise' if code_raises_on_race() else '')
 
 
 SETUP = [('MP', 0, 2), ('MP', 1, 1), ('NT', 0, [0, 1]), ('SUB', 0, 0), ('RD', 0), ('RF', 0),
@@ -470,8 +498,8 @@ CORPUS = [
     # F16: the DB is lowered while the header is read: retry at the lower height
     [('HS', 0), ('ADV', 1), ('ADV', 2), ('NT', 2, []), ('BK',), ('RS',), ('HD', 0), ('HF', 0), ('HD', 0), ('HF', 0),
      ('ADV', 3), ('NT', 2, []), ('HD', 0), ('HF', 0)],
-    # ... and raised when the DB is back at that height by the time the error arrives (notification lost)
-    [('SUB', 0, 0), ('RD', 0), ('RF', 0), ('ADV', 1), ('CH', 0), ('NT', 1, [0]), ('BK',), ('HD', 0), ('ADV', 2), ('HF', 0)],
+    # ... and when the DB is back at that height by the time the error arrives (pinned: raised, notification lost)
+    CORPUS_RACE,
     # two refreshes completing out of order
     [('HS', 0), ('ADV', 1), ('NT', 1, []), ('ADV', 2), ('NT', 2, []), ('HD', 0), ('HD', 0), ('HF', 1), ('HF', 0)],
     CORPUS_ABA,
@@ -498,8 +526,8 @@ def run(tier, seed):
                 'corpus of past witnesses first; non-trivial = a notification happens while a read is in flight or a '
                 'flip is pending')
     base, flip, tip = alphabets()
-    fixed = code_has_cmp_fix()
-    res.bump('code has the live-comparison fix', int(fixed))
+    opts = model_options()
+    res.bump('pinned variants the code under test has:' + (opts or ' none'))
     cases = [list(c) for c in CORPUS]
     depth = 3 if tier == 'quick' else 4
     for L in range(1, depth + 1):
@@ -546,8 +574,7 @@ def run(tier, seed):
     quiet_judged = 0
     for evs in cases:
         lines, expect, viol, r = run_seq(evs)
-        if fixed:
-            lines[0] += ' fix'
+        lines[0] += opts
         reached |= r
         starts.append((len(all_lines), evs))
         all_lines += lines
@@ -566,15 +593,16 @@ def run(tier, seed):
         res.note_case(';'.join(ev_line(e) for e in evs), nontrivial=inflight)
         if viol is not None and nviol.get(viol[2], 0) < 3:       # at most 3 per shape: no crowding out
             nviol[viol[2]] = nviol.get(viol[2], 0) + 1
-            v = {'suite': 'notifcache', 'clause': 'stale status, cache or tip at rest'
-                 if viol[2] != 'queryable' else 'header sent that the DB never held',
+            v = {'suite': 'notifcache', 'clause': {'queryable': 'header sent that the DB never held',
+                                                   'raised': '_notify_sessions raised: notification lost'}.get(
+                                                       viol[2], 'stale status, cache or tip at rest'),
                  'shape': viol[2], 'detail': f'after event {viol[0]}: {viol[1]}',
                  'events': [ev_line(e) for e in evs[:viol[0] + 1]]}
-            if viol[2] == 'suppressed' and known_id():
-                v['tags'] = [known_id()]        # the shape of the recorded stale-copy finding
+            if known_id(viol[2]):
+                v['tags'] = [known_id(viol[2])]        # the shape of a recorded finding
             res.violations.append(v)
     res.bump('sequences', len(cases))
-    for want in ('mempool_statuses', 'refresh-raised'):
+    for want in ('mempool_statuses', 'refresh-race'):
         if want not in reached:
             res.harness_errors.append(f'notifcache: no case reached {want}')
     got = run_evdrv('system', all_lines)
@@ -727,15 +755,16 @@ def env_check(res, tier, seed, only=None):
         res.harness_errors.append('notifcache env_check: no parent flip occurred on the real stack')
 
 
-def known_id():
-    """id of the recorded stale-copy finding (known_findings.json), if it is recorded"""
+def known_id(kind):
+    """id of the finding recorded (not fixed) in known_findings.json for this suite with this kind
+    ('suppressed' = stale-copy comparison, 'raised' = raising refresh), if any"""
     import json
     from harness.common import VERIF
     try:
         for k in json.load(open(os.path.join(VERIF, 'known_findings.json'))).get('findings', []):
-            if k.get('suite') == 'notifcache' and k.get('kind') == 'suppressed' and 'fixed' not in k:
+            if k.get('suite') == 'notifcache' and k.get('kind') == kind and 'fixed' not in k:
                 return k.get('id')
-    except OSError:
+    except (OSError, ValueError):
         pass
     return None
 
@@ -756,6 +785,7 @@ def known_reproduces(finding):
 
 
 def matches_known(violation, finding):
-    """The stale-copy finding: the status computed last is current and stored, but was never sent."""
-    return finding.get('kind') == 'suppressed' and violation.get('suite') == 'notifcache' \
-        and violation.get('shape') == 'suppressed'
+    """The recorded shapes: 'suppressed' (the status computed last is current and stored, but was never
+    sent) and 'raised' (_notify_sessions raised out of _refresh_hsub_results)."""
+    return finding.get('kind') in ('suppressed', 'raised') and violation.get('suite') == 'notifcache' \
+        and violation.get('shape') == finding.get('kind')
